@@ -133,8 +133,30 @@ func (e *Exec) execStmt(st *State, s ast.Stmt) *State {
 		e.Assumed["goroutine launches are skipped (single-threaded model)"] = true
 		return st
 	case *ast.SendStmt:
-		e.eval(st, s.Value)
+		v := e.eval(st, s.Value)
 		e.Assumed["channel sends are skipped (single-threaded model)"] = true
+		// `call chan<- assert[l] e`: e is checked at every send statement of the verified function;
+		// __arg(0) is the value sent
+		if len(e.frames) == 1 && e.spec == 0 && e.Fn.C != nil {
+			for _, ca := range e.Fn.C.Calls {
+				if ca.Callee != "chan<-" {
+					continue
+				}
+				e.callAsserted[ca] = true
+				savedA := e.callArgs
+				e.callArgs = []Term{v}
+				e.sendValue = s.Value
+				t := e.evalSpec(st, ca.Clause)
+				e.sendValue = nil
+				e.callArgs = savedA
+				if ca.Assume {
+					e.Assumed["explicit assumption ["+ca.Clause.Label+"] at channel send: "+ca.Clause.Src] = true
+					e.assume(st, t)
+					continue
+				}
+				e.Ctx.AddObligation(e.Fn.FullName(), "assert", fmt.Sprintf("%s/assert/%s", e.fnName(), ca.Clause.Label), st.PC, t, e.pos(s.Pos()))
+			}
+		}
 		return st
 	case *ast.SelectStmt:
 		return e.execSelect(st, s)
